@@ -26,3 +26,6 @@ func VerifParseRID(rid string) (string, string) { return parseRID(rid) }
 
 // VerifValidateAllowOrigin runs the unexported allow-list validator (it lower-cases in place).
 func VerifValidateAllowOrigin(s []string) error { return validateAllowOrigin(s) }
+
+// VerifExpandCID runs the connection's {cid} expansion for a connection with the given id.
+func VerifExpandCID(rid, cid string) string { return (&wsConn{cid: cid}).ExpandCID(rid) }
